@@ -545,7 +545,8 @@ def joint_case(draw):
     kind = draw(st.sampled_from(["dada_complex", "vdif_complex", "guppi", "dada_stokes"]))
     base = {"dada_complex": {"nchan": 2, "spf": 32, "nframes": 3}, "vdif_complex": {"nthread": 2, "nchan": 1, "spf": 32, "nframes": 8},
             "guppi": {"nchan": 4, "spf": 32, "nfiles": 2, "bw": -12.5, "pol": "LIN"}, "dada_stokes": {"nchan": 4, "spf": 16, "nframes": 2, "bw": 8.0}}[kind]
-    return {"kind": kind, "base": base, "o": draw(st.integers(0, 40)), "n": draw(st.integers(1, 20)), "same_pos": draw(st.booleans())}
+    return {"kind": kind, "base": base, "o": draw(st.integers(0, 40)), "n": draw(st.integers(1, 20)), "same_pos": draw(st.booleans()),
+            "sched": draw(st.sampled_from(["synchronous", "threads"])), "extra": [[draw(st.integers(0, 60)), draw(st.integers(0, 30))] for _ in range(3)]}
 
 
 def run_joint(case, stt):
@@ -557,9 +558,15 @@ def run_joint(case, stt):
     o, n = case["o"] % (a.length + 1), case["n"]
     n = min(n, a.length - o)
     o2 = o if case["same_pos"] else (o + 3) % (a.length - n + 1)
+    extra = [(eo % (a.length + 1), min(en, a.length - eo % (a.length + 1))) for eo, en in case.get("extra", [])]
     with lib("dask_read on two readers"):
         za, zb = a.r.dask_read(o, n), b.r.dask_read(o2, n)
-        ra, rb = dask.compute(za.data, zb.data, scheduler="synchronous")
+        more = [a.r.dask_read(eo, en) for eo, en in extra]
+        with quiet_warnings():
+            ra, rb, *rest = dask.compute(za.data, zb.data, *[m.data for m in more], scheduler=case.get("sched", "synchronous"))
+    for (eo, en), got in zip(extra, rest):
+        ee, _ = a.expected(eo, en)
+        check(got.tobytes() == ee.astype(got.dtype).tobytes(), "joint compute ({}): lazy read({}, {}) of reader A is not the file's content", case.get("sched"), eo, en)
     ea, _ = a.expected(o, n)
     eb, _ = b.expected(o2, n)
     check(ra.tobytes() == ea.astype(ra.dtype).tobytes(), "joint compute: reader A's lazy read({}, {}) is not file A's content", o, n)
